@@ -11,6 +11,7 @@ package xplor
 
 import (
 	"fmt"
+	"os"
 	"runtime/debug"
 	"sort"
 	"strings"
@@ -114,6 +115,15 @@ func (c *Ctx) choices() []int {
 	return out
 }
 
+// ChoiceLabels returns "label=chosen" for every choice point reached so far.
+func (c *Ctx) ChoiceLabels() []string {
+	out := make([]string, len(c.points))
+	for i, p := range c.points {
+		out[i] = fmt.Sprintf("%s=%d", p.label, p.chosen)
+	}
+	return out
+}
+
 func (c *Ctx) labels() []string {
 	out := make([]string, len(c.points))
 	for i, p := range c.points {
@@ -136,6 +146,18 @@ type Result struct {
 	Samples     []map[string]any
 	Panics      int64
 	Wall        time.Duration
+	perKey      map[string]int
+}
+
+func sortedClassAttrs(m map[string]string) []string {
+	var out []string
+	for k, v := range m {
+		if !strings.HasPrefix(k, "~") {
+			out = append(out, k+":"+v)
+		}
+	}
+	sort.Strings(out)
+	return out
 }
 
 // Explorer configures an exploration.
@@ -177,6 +199,8 @@ func RunOne(scn func(*Ctx), choices []int, replay bool) *Ctx {
 		h.points = nil
 		h.Fail("hang", "execution did not finish within %s (choices %v)", Watchdog, choices)
 		h.violations[0].Choices = choices
+		h.violations[0].Attrs = h.Attrs
+		fmt.Fprintf(os.Stderr, "xplor: execution exceeded the %s watchdog: choices %v\n", Watchdog, choices)
 		return h
 	}
 	for i := range c.violations {
@@ -224,7 +248,7 @@ func (e *Explorer) Explore() *Result {
 		if c.diverged != "" {
 			c.Fail("harness.diverged", "%s", c.diverged)
 		}
-		if c.skip {
+		if c.skip && len(c.violations) == 0 {
 			local.Skipped++
 		} else {
 			local.Executions++
@@ -240,11 +264,20 @@ func (e *Explorer) Explore() *Result {
 			if len(local.Samples) < e.MaxSamples && len(c.nontrivial) > 0 && local.Executions%97 == 1 {
 				local.Samples = append(local.Samples, map[string]any{"attrs": c.Attrs, "choices": c.choices(), "outcome": c.outcome})
 			}
-			if len(c.violations) > 0 {
-				local.NViolations += int64(len(c.violations))
-				if len(local.Violations) < e.MaxViolations {
-					local.Violations = append(local.Violations, c.violations...)
+			for _, v := range c.violations {
+				local.NViolations++
+				// retain up to MaxViolations per distinct (clause, class attributes) per worker
+				k := v.Clause
+				for _, a := range sortedClassAttrs(v.Attrs) {
+					k += "|" + a
 				}
+				if local.perKey == nil {
+					local.perKey = map[string]int{}
+				}
+				if local.perKey[k] < 3 || (len(local.Violations) < e.MaxViolations && local.perKey[k] < 20) {
+					local.Violations = append(local.Violations, v)
+				}
+				local.perKey[k]++
 			}
 		}
 		// children
